@@ -7,7 +7,7 @@ RULE = ("generated HTTP/1.x messages (GET/HEAD request or status line, header na
         "plus all single-defect corruptions (delete/insert/replace one byte from a hostile alphabet at sampled positions, truncation at "
         "every offset for small messages); observable read_payload; non-trivial = parse accepted with >= 1 header")
 ASSUMPTIONS = ["h11's maybe_extract_lines is modelled as: lines before the first LF-terminated blank piece (stripping one trailing CR each)"]
-GEN_TIE = ["httpx", "h11"]   # ("h11": h11's maybe_extract_lines AS INSTALLED + copy_buffer translated and proved equal to the model's extract_lines, translate/h112coq.py, Gen/GenH11P.v) read.py (first line, header lines, read_payload), header.py / http.py and signatures/http.py are also TRANSLATED (translate/http2coq.py) on every run and proved equal to the model (Gen/GenHttpP.v)
+GEN_TIE = ["httpx", "h11", "re"]   # ("h11": h11's maybe_extract_lines AS INSTALLED + copy_buffer translated and proved equal to the model's extract_lines, translate/h112coq.py, Gen/GenH11P.v) read.py (first line, header lines, read_payload), header.py / http.py and signatures/http.py are also TRANSLATED (translate/http2coq.py) on every run and proved equal to the model (Gen/GenHttpP.v)
 EXHAUSTIVE = {"truncation at every offset of the sampled valid messages": True}
 HOSTILE = [13, 10, 32, 9, 58, 0, 255, 71, 72, 47, 49, 46]
 
